@@ -445,8 +445,10 @@ impl VersionSet {
 
         // Drop the manifest reader (and therefore the underlying file handle) before attempting to
         // reuse the existing manifest file
+        // A manifest with a torn or corrupted tail cannot be appended to
+        let is_manifest_intact = manifest_reader.has_read_entire_file().unwrap_or(false);
         drop(manifest_reader);
-        if self.maybe_reuse_manifest(&manifest_file_path) {
+        if is_manifest_intact && self.maybe_reuse_manifest(&manifest_file_path) {
             return Ok(true);
         }
 
